@@ -253,6 +253,23 @@ def uniformNode (lo hi : K) (n i : Nat) : K :=
   if i + 1 = n ∧ 1 < n then gmax
   else (i : K) * ((gmax - gmin) / ((n : K) - 1)) + gmin
 
+/-- All four `nodes_on_bdry` branches of `uniform_grid_fromintv` (per axis `(bdry_l, bdry_r)`,
+as `uniform_discr(..., nodes_on_bdry=...)` passes them) followed by the same `np.linspace`:
+a boundary node sits on the interval end, otherwise half a stride inside;
+`gmin = a + (b - a) / (2 * n - 1)` / `gmax = b - (b - a) / (2 * n - 1)` when exactly the other
+end carries a node. -/
+def uniformNodeBdry (bl br : Bool) (lo hi : K) (n i : Nat) : K :=
+  let gmin := if bl then lo else if br then lo + (hi - lo) / (2 * (n : K) - 1)
+    else lo + (hi - lo) / (2 * (n : K))
+  let gmax := if br then hi else if bl then hi - (hi - lo) / (2 * (n : K) - 1)
+    else hi - (hi - lo) / (2 * (n : K))
+  if i + 1 = n ∧ 1 < n then gmax
+  else (i : K) * ((gmax - gmin) / ((n : K) - 1)) + gmin
+
+/-- An axis of `uniform_discr(lo, hi, n, nodes_on_bdry=(bl, br))`. -/
+def uniformAxisBdry (bl br : Bool) (lo hi : K) (n : Nat) (s : Scheme) : Axis K :=
+  ⟨n, uniformNodeBdry bl br lo hi n, s⟩
+
 /-- An axis of a uniformly discretised interval `[lo, hi]` with `n` cells. -/
 def uniformAxis (lo hi : K) (n : Nat) (s : Scheme) : Axis K := ⟨n, uniformNode lo hi n, s⟩
 
